@@ -105,6 +105,7 @@ Step ==
   /\ LET e == Rec[l] IN
      IF e.ev = "reset"
      THEN LET follow == e.res.k = "ok" /\ e.mode = "plain" /\ Has(e, "faulty") /\ ~e.faulty /\ Has(e, "maxbuf") /\ Known(e.maxbuf)
+                        /\ ~Has(e, "nofid")      \* (histories whose transfers go through derived io methods: primitive calls only here)
           IN /\ skip' = ~follow /\ h' = NoH /\ mb' = (IF Has(e, "maxbuf") THEN e.maxbuf ELSE -1)
              /\ files' = IF follow THEN InitFiles(e.streams) ELSE <<>>
      ELSE IF skip THEN UNCHANGED <<h, files, mb, skip>>
